@@ -1,0 +1,8 @@
+//go:build !verif
+
+package sched
+
+import "time"
+
+// timeNow is the time source of the heap timer (replaceable under the `verif` build tag).
+func timeNow() time.Time { return time.Now() }
